@@ -59,6 +59,13 @@ Rewrite(e) ==
                            ELSE e.veh]
     ELSE e
 
+(* the other reading of an assigned trip WITHOUT a train id on an entity that has a vehicle descriptor of its own: *)
+(* C16 names the vehicle by the train id and says nothing for a missing one; the feed's descriptor may be kept    *)
+TrainOpenEnt(e) ==
+    /\ e.k \in {"tu", "vp"} /\ IsSome(e.trip) /\ Assigned(Val(e.trip))
+    /\ OrElse(Val(Val(e.trip).nyct).train, 0) = 0 /\ IsSome(e.veh)
+RewriteAlt(e) == IF TrainOpenEnt(e) THEN [Rewrite(e) EXCEPT !.veh = e.veh] ELSE Rewrite(e)
+
 TrackOf(stu) ==
     IF "nyct" \in DOMAIN stu /\ IsSome(stu.nyct)
     THEN IF IsSome(Val(stu.nyct).actual) THEN Val(stu.nyct).actual ELSE Val(stu.nyct).sched
@@ -82,6 +89,11 @@ Pre(msg, opts) ==
     LET Fix(e) == IF opts.preserveM THEN e ELSE FixM(e)
         kept == FilterSeq(LAMBDA e : ~(opts.filterStale /\ Stale(e, msg.ts)), msg.ents)
     IN [ts |-> msg.ts, ents |-> [i \in DOMAIN kept |-> AddTracks(Rewrite(Fix(kept[i])))]]
+
+PreAlt(msg, opts) ==
+    LET Fix(e) == IF opts.preserveM THEN e ELSE FixM(e)
+        kept == FilterSeq(LAMBDA e : ~(opts.filterStale /\ Stale(e, msg.ts)), msg.ents)
+    IN [ts |-> msg.ts, ents |-> [i \in DOMAIN kept |-> AddTracks(RewriteAlt(Fix(kept[i])))]]
 
 ParseNyct(msg, opts) == ParseMsg(Pre(msg, opts))
 
